@@ -204,7 +204,7 @@ def demoTags : List Tag :=
    { kind := .skipped, name := ['A'] }]
 
 def demoOps : List Op :=
-  [.start, .set 0 (.flt 40), .mark 1 "a, b".toList, .mark 1 "c\\d;".toList, .row ['1'], .row ['2']]
+  [.start, .set 0 (.flt false 5 4), .mark 1 "a, b".toList, .mark 1 "c\\d;".toList, .row ['1'], .row ['2']]
 
 example : (run (init demoTags) demoOps).log =
     [[timeHeader, "F [L/h]".toList, ['M']], [['1'], "1.25000".toList, "a, b; c\\d;".toList],
